@@ -1,24 +1,31 @@
 (* C15 — every line sent to clients is a single well-formed IRC line.
-   Proved over the model: every output message of every entry is produced by Message.Bytes (hence a
-   prefix-optional command line) and is at most 510 bytes long; the HTTP handlers' sanitising step
-   removes CR, LF and NUL from what a client posts.
-   Partial: "no CR/LF/NUL in any output" additionally needs the invariant that every string stored in the
-   state is clean; that invariant is not proved here — it is checked on the implementation by the line
-   monitor of the correspondence check.  Open finding: a ~500 byte user name makes the prefix alone
-   exceed 510 bytes, so the truncated line loses its command (known_findings.txt, sig c15:nocommand). *)
+   Proved over the model, for every entry of every history:
+     * every output message is produced by Message.Bytes (a prefix-optional command line), at most 510 bytes long;
+     * NO output message contains CR, LF or NUL, provided the strings the log entries carry are clean
+       (C15_no_control_characters / C15_clean_trace; the invariant CleanState — every string of the state that can
+       reach an output is clean — is spelled out by C15_CleanState_spec);
+     * what the POST handler commits is clean whatever JSON string was posted (C15_post_handler_clean), so EMessage
+       entries meet the hypothesis (C15_posted_entry_clean); reload (save+load) and the expiry sweep keep it.
+   Hypotheses that are not discharged inside Coq (stated in DESIGN.md, checked on the implementation by the line monitor):
+   quit messages of DELETE requests are cut by deletesession.go the same way (no Coq model of that handler), ban reasons
+   of a posted configuration (network password holder only) are clean, and two texts the model masks as constants
+   (captcha URL, server creation date).
+   Open finding: a ~500 byte user name makes the prefix alone exceed 510 bytes, so the truncated line loses its command
+   (known_findings.txt, sig c15:nocommand). *)
 From stdpp Require Import gmap.
 From Coq Require Import Strings.String List.
 From RV Require Import Irc.Str Irc.Parse Irc.State Irc.Cmds Irc.Apply Api.Auth Api.Post.
 From RV Require Import IrcProofs.Outputs Api.PostProofs.
+From RV Require Import IrcProofs.Top IrcProofs.Clean IrcProofs.CleanHandlers.
 Local Open Scope string_scope.
 
 Theorem C15_length : forall e sv en sv' out,
-  apply_entry e sv en = OOk sv' out -> Forall (fun o => slen (o_data o) <= max_length) out.
+  RV.Irc.Apply.apply_entry e sv en = OOk sv' out -> Forall (fun o => slen (o_data o) <= max_length) out.
 Proof. exact outputs_short. Qed.
 Print Assumptions C15_length.
 
 Theorem C15_rendered : forall e sv en sv' out,
-  apply_entry e sv en = OOk sv' out -> Forall (fun o => exists m, o_data o = msg_bytes m) out.
+  RV.Irc.Apply.apply_entry e sv en = OOk sv' out -> Forall (fun o => exists m, o_data o = msg_bytes m) out.
 Proof. exact outputs_rendered. Qed.
 Print Assumptions C15_rendered.
 
@@ -27,7 +34,62 @@ Theorem C15_command_present : forall m, exists rest,
 Proof. exact msg_bytes_full_shape. Qed.
 Print Assumptions C15_command_present.
 
-(* what the POST handler puts into the log contains no CR, LF or NUL, whatever JSON string was posted *)
-Theorem C15_sanitised_partial : forall d c, is_line_end c = true -> contains_char c (cut_line d) = false.
-Proof. exact cut_line_clean. Qed.
-Print Assumptions C15_sanitised_partial.
+(* [clean s]: s contains no CR, LF, NUL — with exactly the POST handler's predicate *)
+Theorem C15_clean_spec : forall s, clean s <-> forall c, is_line_end c = true -> contains_char c s = false.
+Proof. exact clean_forall. Qed.
+Print Assumptions C15_clean_spec.
+
+(* one entry, any state whose strings are clean: the state stays clean and every output is clean *)
+Theorem C15_clean_step : forall e sv en,
+  CleanState sv -> clean_entry en -> clean_outcome (RV.Irc.Apply.apply_entry e sv en).
+Proof. exact clean_step. Qed.
+Print Assumptions C15_clean_step.
+
+(* every history from the initial state *)
+Theorem C15_no_control_characters : forall e net es sv en sv' out,
+  clean net -> Forall clean_entry es -> clean_entry en ->
+  RV.IrcProofs.Top.run e (init_server net) es = Some sv -> RV.Irc.Apply.apply_entry e sv en = OOk sv' out ->
+  CleanState sv' /\ Forall (fun o => clean (o_data o)) out.
+Proof. exact clean_run. Qed.
+Print Assumptions C15_no_control_characters.
+
+Theorem C15_clean_trace : forall e sv es,
+  CleanState sv -> Forall clean_entry es ->
+  Forall (fun p => CleanState (fst p) /\ Forall (fun o => clean (o_data o)) (snd p)) (trace e sv es).
+Proof. exact clean_trace. Qed.
+Print Assumptions C15_clean_trace.
+
+(* what the POST handler puts into the log is clean, whatever JSON string was posted *)
+Theorem C15_post_handler_clean : forall json_decode st sid body pe,
+  post_handler json_decode st sid body = PPropose pe -> clean (e_data pe).
+Proof. exact post_handler_clean. Qed.
+Print Assumptions C15_post_handler_clean.
+
+Theorem C15_posted_entry_clean : forall id un session cmid ra d,
+  clean_entry (RV.Irc.Apply.EMessage id un session cmid ra (cut_line d)).
+Proof. exact clean_posted_entry. Qed.
+Print Assumptions C15_posted_entry_clean.
+
+Theorem C15_reload_clean : forall sv, CleanState sv -> CleanState (reload sv).
+Proof. exact clean_reload. Qed.
+Print Assumptions C15_reload_clean.
+
+Theorem C15_expire_clean : forall sv now, Forall (fun p => clean (snd p)) (expire_sessions sv now).
+Proof. exact clean_expire_sessions. Qed.
+Print Assumptions C15_expire_clean.
+
+(* what the invariant says *)
+Theorem C15_CleanState_spec : forall sv,
+  CleanState sv <->
+  (forall k s, sv_sessions sv !! k = Some s -> clean_session_fields s) /\
+  (forall lc c, sv_channels sv !! lc = Some c -> clean_chan_fields c) /\
+  (forall n h, sv_svsholds sv !! n = Some h -> clean (h_reason h)) /\
+  clean (sv_netname sv) /\
+  (forall addr reason, g_banned (sv_config sv) !! addr = Some reason -> clean reason).
+Proof. exact CleanState_spec. Qed.
+Print Assumptions C15_CleanState_spec.
+
+(* non-vacuity: the example history is clean and produces output; the hypothesis is needed *)
+Theorem C15_nonvacuous : Forall clean_entry Examples.ex_history.
+Proof. exact ex_history_clean. Qed.
+Print Assumptions C15_nonvacuous.
